@@ -64,9 +64,20 @@ func ValidVariants(s *Schema) []Variant {
 			} else {
 				add(m, "optional extra argument on an implementing field")
 			}
-			m = s.Clone()
-			m.Defs[di].Fields[len(d.Fields)-1].Dirs = append(m.Defs[di].Fields[len(d.Fields)-1].Dirs, du("deprecated", "reason", "because \"x\""))
-			add(m, "deprecated field with reason")
+			for fi := len(d.Fields) - 1; fi >= 0; fi-- {
+				already := false
+				for _, u := range d.Fields[fi].Dirs {
+					if u.Name == "deprecated" {
+						already = true
+					}
+				}
+				if !already {
+					m = s.Clone()
+					m.Defs[di].Fields[fi].Dirs = append(m.Defs[di].Fields[fi].Dirs, du("deprecated", "reason", "because \"x\""))
+					add(m, "deprecated field with reason")
+					break
+				}
+			}
 			for _, in := range inputs {
 				m := s.Clone()
 				m.Defs[di].Fields = append(m.Defs[di].Fields, fld("withInput", N("Int"), arg("in", L(NN(N(in))))))
